@@ -285,10 +285,25 @@ theorem C17_send_eof_rearms (s : State) (e : Eof) (now : Nat) (h : s.eof = some 
   rw [(h1 _ _).2]
   simp only [h, (h1 _ _).1, and_self]
 
-/-- a PDU from the receiver is progress: the inactivity count starts again from zero -/
-theorem C17_send_progress_resets (s : State) (now : Nat) (h : s.sendState = .SendEof) :
-    (pduArrived s now).timer.inactivity.count = 0 ∧ (pduArrived s now).timer.inactivity.base = now := by
-  simp only [pduArrived, h, beq_self_eq_true, if_true, Counter.reset, and_self]
+/-- a counter that was just reset has nothing to catch up on -/
+theorem update_reset (c : Counter) (now : Nat) (ht : 0 < c.timeout) : (c.reset now).update now = c.reset now := by
+  simp only [Counter.update, Counter.reset, Bool.false_eq_true, if_false, Nat.sub_self, Nat.zero_add, updateLoop]
+  rw [if_neg (by omega)]
+
+/-- a PDU from the receiver is progress: the inactivity count starts again from zero (and the
+timer of a suspended transaction stays stopped) -/
+theorem C17_send_progress_resets (s : State) (now : Nat) (h : s.sendState = .SendEof)
+    (ht : 0 < s.timer.inactivity.timeout) :
+    (pduArrived s now).timer.inactivity.count = 0 ∧ (pduArrived s now).timer.inactivity.base = now ∧
+    (s.state = .Suspended → (pduArrived s now).timer.inactivity.paused = true) := by
+  simp only [pduArrived, h, beq_self_eq_true, if_true]
+  split
+  · simp only [Counter.pause, update_reset _ _ ht]
+    exact ⟨rfl, rfl, fun _ => trivial⟩
+  · rename_i hs
+    refine ⟨rfl, rfl, fun hh => ?_⟩
+    rw [hh] at hs
+    exact absurd rfl hs
 
 end Cfdp.Send
 
